@@ -86,8 +86,20 @@ func main() {
 			"export": 5, "import": 4, "lock": 7, "unlock": 10, "sign": 8, "restart": 4},
 		Inspect: true,
 		Mutate: func(r *vh.Rng, ops []wl.Op) []wl.Op {
-			if r.Chance(1, 3) {
+			if r.Chance(1, 4) {
 				return ops
+			}
+			if r.Chance(1, 3) {
+				// passphrases of the longest (or shortest) legal length, and candidates that extend the current one
+				// (also by NUL bytes and beyond the legal length), tried while unlocked and while locked
+				ins := []wl.Op{{Kind: "chpriv", PC: "cur", NPC: r.PickS("fresh40", "fresh40", "fresh6")}, {Kind: "unlock", PC: "cur"},
+					{Kind: "unlock", PC: "curlong"}, {Kind: "export", PC: "curlong", K: r.Intn(2)}, {Kind: "chpriv", PC: "curlong", NPC: "fresh"},
+					{Kind: "delete", PC: "curnul", K: r.Intn(2)}, {Kind: "lock"}, {Kind: "unlock", PC: "curlong"}, {Kind: "export", PC: "curnul", K: r.Intn(2)},
+					{Kind: "delete", PC: "curlong", K: r.Intn(2)}, {Kind: "unlock", PC: "cur"}, {Kind: "sign", N: 2}}
+				pos := 1 + r.Intn(len(ops)/2+1)
+				out := append([]wl.Op{}, ops[:pos]...)
+				out = append(out, ins...)
+				return append(out, ops[pos:]...)
 			}
 			// hostile-but-legal argument combinations while LOCKED with two keystores: a public passphrase change
 			// whose candidate equals the private passphrase (refused, but it makes the code derive the master key),
